@@ -187,6 +187,89 @@ def task_masks_after_reassignment():
     return col.pack()
 
 
+def task_setters():
+    """the assignments that change what the transform needs -- Fourier.time = t, Fourier.signal = s, Fourier.fourier_arguments(ft, ftarg) -- store
+    the value and then derive required frequencies, ft and ftarg AGAIN, by the reference routine empymod.utils.check_time, from the time, signal
+    and Fourier arguments the object holds at that moment: always, whatever the object held before (no shortcut for `unchanged` values: the time
+    array is kept by reference and may have been edited in place)"""
+    from .cxutil import UNRECOGNISED
+    col = ob.Collector(PROP, 'time.Fourier/setters')
+    col.default_replay = replay
+    for p_ in ('time', 'signal', 'fourier_arguments', '_check_time'):
+        col.function(f'time.Fourier.{p_}')
+    res = []
+    for what in ('time', 'signal', 'fourier_arguments'):
+        def run(ctx, what=what):
+            log = []
+
+            def check_time(it, f, args, kw, node):
+                out = (cx.Opaque('time-checked'), cx.NDArr(cx.Store('required frequencies of this call')), cx.Opaque('ft-checked'), cx.Opaque('ftarg-checked'))
+                log.append((list(args), dict(kw), out))
+                return out
+            ctx.opts.setdefault('prelude', {})['empymod.utils.check_time'] = check_time
+            it = cx.Interp(ctx, 'time')
+            old_t = cx.NDArr(cx.Store('time held before'))
+            fo = cx.Obj('Fourier', dict(_freq_req=cx.NDArr(cx.Store('freq_required before')), _fmin=FMIN, _fmax=FMAX, _time=old_t, _signal=z3.Int('signal_before'),
+                                        _ft=cx.Opaque('ft before'), _ftarg=cx.Opaque('ftarg before'), verb=0, _every_x_freq=None, _input_freq=None, __strict__=True), mod='time')
+            new = dict(time=cx.NDArr(cx.Store('time assigned')), signal=z3.Int('signal_assigned'), ft=cx.Opaque('ft assigned'), ftarg=cx.Opaque('ftarg assigned'))
+            st = dict(fo=fo, what=what, log=log, new=new, old_t=old_t)
+            try:
+                if what == 'time':
+                    it.setattr(fo, 'time', new['time'])
+                elif what == 'time_same_object':
+                    it.setattr(fo, 'time', old_t)
+                elif what == 'signal':
+                    it.setattr(fo, 'signal', new['signal'])
+                else:
+                    it.call(it.getattr(fo, 'fourier_arguments'), [new['ft'], new['ftarg']], {})
+            except cx._Raise as e:
+                return 'raise', e.exc, st
+            return 'return', None, st
+        res += cx.explore(run)
+    # the very array the object already holds, assigned again (after an in-place edit by its owner)
+    def run_same(ctx):
+        log = []
+
+        def check_time(it, f, args, kw, node):
+            out = (cx.Opaque('time-checked'), cx.NDArr(cx.Store('required frequencies of this call')), cx.Opaque('ft-checked'), cx.Opaque('ftarg-checked'))
+            log.append((list(args), dict(kw), out))
+            return out
+        ctx.opts.setdefault('prelude', {})['empymod.utils.check_time'] = check_time
+        it = cx.Interp(ctx, 'time')
+        old_t = cx.NDArr(cx.Store('time held before'))
+        fo = cx.Obj('Fourier', dict(_freq_req=cx.NDArr(cx.Store('freq_required before')), _fmin=FMIN, _fmax=FMAX, _time=old_t, _signal=z3.Int('signal_before'),
+                                    _ft=cx.Opaque('ft before'), _ftarg=cx.Opaque('ftarg before'), verb=0, _every_x_freq=None, _input_freq=None, __strict__=True), mod='time')
+        st = dict(fo=fo, what='time', log=log, new=dict(time=old_t), old_t=old_t)
+        try:
+            it.setattr(fo, 'time', old_t)
+        except cx._Raise as e:
+            return 'raise', e.exc, st
+        return 'return', None, st
+    res += cx.explore(run_same)
+
+    def refreshed(r):
+        if r.outcome != 'return':
+            return False
+        fo, log, new, what = r.state['fo'].fields, r.state['log'], r.state['new'], r.state['what']
+        if not log:
+            return False
+        args, kw, out = log[-1]
+        if kw or len(args) < 4:
+            return UNRECOGNISED('check_time is not called with (time, signal, ft, ftarg, ...) positionally')
+        want_t = new['time'] if what == 'time' else r.state['old_t']
+        want_s = new['signal'] if what == 'signal' else z3.Int('signal_before')
+        ok = args[0] is want_t and fo['_time'] is want_t
+        ok = ok and cx.is_sym(args[1]) and args[1].eq(want_s) and cx.is_sym(fo['_signal']) and fo['_signal'].eq(want_s)
+        if what == 'fourier_arguments':
+            ok = ok and args[2] is new['ft'] and args[3] is new['ftarg']
+        # what the object holds afterwards is what THIS call of the reference routine returned
+        return ok and fo['_freq_req'] is out[1] and fo['_ft'] is out[2] and fo['_ftarg'] is out[3]
+    for what in ('time', 'signal', 'fourier_arguments'):
+        clause(col, f'{what}/required_frequencies_and_transform_arguments_are_derived_again_from_the_current_time_signal_and_arguments',
+               [r for r in res if r.state['what'] == what], refreshed, sample=(what == 'signal'))
+    return col.pack()
+
+
 def task_interpolate():
     col = ob.Collector(PROP, 'time.Fourier.interpolate')
     col.default_replay = replay
@@ -336,7 +419,7 @@ def task_concrete():
 
 
 def tasks(tier):
-    return [('contracts.c20', n, {}) for n in ('task_masks', 'task_masks_after_reassignment', 'task_interpolate', 'task_extension_point', 'task_freq2time', 'task_concrete')]
+    return [('contracts.c20', n, {}) for n in ('task_masks', 'task_masks_after_reassignment', 'task_setters', 'task_interpolate', 'task_extension_point', 'task_freq2time', 'task_concrete')]
 
 
 LEVEL = ('Proof by element-wise lifting over the generic required / coarse frequency (control executor, all paths of the bookkeeping properties and of interpolate(), '
